@@ -206,7 +206,9 @@ def taken_over_shapes():
     """a derived class binds again the very function object of a base's member: with ONE base providing the member nothing
     changes anywhere (repair d4767ed); with ANOTHER base handing down contracts of its own the library writes them onto
     the shared function (known finding of C17)"""
-    for kind in ("func", "classm", "static", "prop"):
+    for kind in ("func", "classm", "static", "prop", "func-wrapped"):
+        wrapped = kind == "func-wrapped"      # `m = traced(Base.m)`: a foreign functools.wraps decorator around the member taken over
+        kind = "func" if wrapped else kind
         for npost, npre, nsnap in ((1, 1, 0), (2, 0, 1), (1, 2, 0)):
             for other_base in (False, True):
                 b = Builder()
@@ -227,6 +229,8 @@ def taken_over_shapes():
                         f2 = b.new_fn(1, 1)
                         o = b.add_class([], [b.member(key, f2)])
                     bases = [o, a]
+                if wrapped:
+                    b.ops.append(op("wrap", f=f))
                 for _ in range(2):
                     if kind == "prop":
                         b.add_class(bases, [b.member("p", fget=g, fset=b.new_fn(0, 1))])
